@@ -63,6 +63,7 @@ var (
 	SiteDomainFunc = RegSite("cors.AllowedDomainFunc")
 	SiteMiddleware = RegSite("middleware")
 	SiteUnknown    = RegSite("repo.unknown")
+	SiteRendezvous = RegSite("handler.waits-for-other-request")
 )
 
 // ---- events (task-private logs) ------------------------------------------------------
@@ -147,6 +148,16 @@ func (t *Task) Yield(site Site, kind uint8, a, b uint64) uint64 {
 func (t *Task) Y(site Site) {
 	if t.NoYield > 0 {
 		return
+	}
+	t.Yield(site, KYield, 0, 0)
+}
+
+// WaitUntil parks the task until cond holds. Like a failed lock probe it counts as "blocked": if
+// every unfinished task is blocked and a full round of re-probing changes nothing, it is a deadlock.
+// cond must read state shared with other tasks only through //go:norace accessors.
+func (t *Task) WaitUntil(site Site, cond func() bool) {
+	for !cond() {
+		t.Yield(site, KBlocked, 0, 0)
 	}
 	t.Yield(site, KYield, 0, 0)
 }
@@ -315,6 +326,7 @@ func (s *Sim) unfinished() []*Task {
 // ended abnormally (s.Abnormal says why); parked task goroutines then stay parked and the
 // process must not be reused for further runs.
 func (s *Sim) Run() bool {
+	setCur(nil)
 	s.repR, s.repW = newPipe()
 	for _, t := range s.Tasks {
 		t.wakeR, t.wakeW = newPipe()
@@ -364,6 +376,10 @@ func (s *Sim) Run() bool {
 					mode := "R"
 					if t.lockW {
 						mode = "W"
+					}
+					if t.lockAddr == 0 {
+						parts = append(parts, fmt.Sprintf("%s waiting at %s for another request to finish", t.Name, s.lastSite(t)))
+						continue
 					}
 					parts = append(parts, fmt.Sprintf("%s blocked on %sLock at %s", t.Name, mode, s.lastSite(t)))
 				}
@@ -454,7 +470,10 @@ func (s *Sim) stepTask(t *Task) bool {
 		return false
 	}
 	if int(m.Task) != t.ID {
-		panic(fmt.Sprintf("sim: message from task %d while task %d was scheduled", m.Task, t.ID))
+		// cannot happen while yields are always the running task's; never continue on a broken protocol
+		s.Abnormal = "protocol"
+		s.Violate("infra-protocol", "message from task %d while task %d was scheduled", m.Task, t.ID)
+		return false
 	}
 	s.record(t, m)
 	if m.Kind != KBlocked {
